@@ -22,6 +22,11 @@ CLAIMED = {
             "enum default, default of wrong JSON type for primitives / dict forms / unions / references, decimal precision/scale), C11_accepts (valid_raw => accepted, no size bound). "
             "Tie: accept / SchemaParseException / UnknownType(name) / other, canonical form, table keys and the parsed output key by key vs the model; SF_schema source facts.",
             "Known finding K1 (numeric strings accepted as float defaults) is reported as KNOWN-FINDING. expand=True and _ignore_default_error are not modelled.", "§3 C11"),
+    "C12": ("Rocq proof: parsing a marked parsed schema is the identity (and copies its table), re-parsing the parser's unmarked output keeps names and canonical form, inlining separately parsed types yields a schema closed relative to the table; raw / parsed / piecewise forms compared on every public operation",
+            "Theorems (coq/props/C12.v): C12_idempotent_marked, C12_idempotent, C12_reparse_names, C12_reparse_partial, C12_selfcontained_partial, C12_parsed_selfcontained. Tie: for generated "
+            "schemas and EVERY feasible subset of their named types parsed separately against a shared dict: schemaless writer/reader, validate, json writer/reader, container blocks + file "
+            "readable on its own, canonical form, fingerprint, generate_many under a fixed random state must agree across the three forms (the statement itself), and with the model.",
+            "PARTIAL: C12_piecewise in general and C12_ops_respect_equiv (a statement about the codec model's lookup-based functions) are decided by the correspondence only.", "§3 C12"),
     "C13": ("Rocq proof: canonical form of the parsed schema = the specification's transformation applied to the raw JSON (C13_spec), invariance under the inductive closure of cosmetic edits, JSON-level fixed point; model and independent pcf vs to_parsing_canonical_form incl. Apache vectors",
             "Theorems (coq/props/C13.v): C13_spec (all simple_raw schemas incl. top-level unions), C13_cosmetic (+ instances), C13_fixed_point_json, C13_fixed_point_partial, 11 Apache vectors by vm_compute. "
             "Tie: canon.parse (model) = pcf (model) = implementation on generated schemas and cosmetic rewrites; fixed point through json.loads.",
@@ -92,6 +97,12 @@ CLAIMED = {
             "Tie: footprint per operation measured on the implementation, forced enumeration of all interleavings at the shared-access points (2-3 threads), stress run.",
             "PARTIAL: bytecode-level atomicity under the GIL and thread safety of C libraries on distinct objects are assumed (runtime behaviour the model cannot exhibit).", "§3 C18"),
 
+    "C19": ("Rocq model of load_schema's catch-UnknownType / load / inject-at-first-reference / retry loop and of load_schema_ordered; theorems: the result is a parse, first-try equivalence, a missing file surfaces as UnknownType naming the missing type; load_schema vs parse of the inlined-at-first-use schema on random dependency graphs",
+            "Theorems (coq/props/C19.v): C19_parse_schema_g, C19_equiv_partial_first_try, C19_result_is_a_parse, C19_missing, C19_missing_nested, C19_missing_top, C19_no_inner_repo_error + evaluated "
+            "instances (diamond, two depths with a namespace-relative reference, missing file). Tie: random acyclic graphs (1-8 types, 1-3 namespaces incl. the null one): load_schema, every "
+            "dependencies-first load_schema_ordered order, and parse of the inlined-at-first-use schema must have equal canonical forms and equal encodings of generated data; each single "
+            "file removed must raise UnknownType naming it; the model is compared on all of these.",
+            "PARTIAL: the general C19_equiv / C19_ordered / C19_inline_closed (all DAGs) are stated in comments and decided by the correspondence; the file system (FlatDictRepository) is abstracted to a name -> JSON map.", "§3 C19"),
     "C20": ("Rocq proof: for every wf schema (recursive ones included) and EVERY random stream a generated value validates (never False, never an exception), count = n, readable ranges of logical leaves, termination for ranked schemas and refutation for recursion through arrays/maps; generate_many replayed on recorded draws vs the model + validate/write/read predicate",
             "Theorems (coq/props/C20.v, 18): C20_count, C20_generate_one, C20_conforms (+_many, _ranked, _fuel), C20_leaf_shape, C20_readable_*, C20_terminates_ranked, C20_refuted_rec_array. "
             "Tie: fastavro.utils.random / uuid replaced from outside by recording proxies; values of generate_many compared with the model's gen on the recorded stream; every value "
